@@ -102,11 +102,11 @@ def msRates (l : MsLayout) (fs fsz bitrateBps : Int) : List Int :=
   (List.range l.nbStreams.toNat).map fun (i : Nat) => msRate l fs fsz bitrateBps (i : Int)
 
 /-- What stream `i`'s encoder stores on `OPUS_SET_BITRATE(bitrates[i])` (src/opus_encoder.c, OPUS_SET_BITRATE_REQUEST:
-    `value <= 0` is refused, then clamped to 500 .. 750000·channels); `none` = OPUS_BAD_ARG. -/
+    `value <= 0` is refused, then clamped to 500 .. 300000·channels, :2681-2695); `none` = OPUS_BAD_ARG. -/
 def msStreamUserBitrate (l : MsLayout) (fs fsz bitrateBps i : Int) : Option Int :=
   let v := msRate l fs fsz bitrateBps i
   let ch : Int := if i < l.nbCoupled then 2 else 1
-  if v ≤ 0 then none else some (min (750000 * ch) (max 500 v))
+  if v ≤ 0 then none else some (min (300000 * ch) (max 500 v))
 
 def fitsI32 (x : Int) : Bool := decide (-2147483648 ≤ x ∧ x ≤ 2147483647)
 
